@@ -128,7 +128,7 @@ E2_ASSUME = [
 def check_C03(ctx):
     th = ctx.thorough()
     jobs = e2lru_jobs(ctx, "C03", 6 if th else 4, 1500 if th else 300)
-    jobs += e2cache_jobs(ctx, "C03", 4 if th else 3, 1500 if th else 300, 8 if th else 2, proxies=("0", "1", "2"))
+    jobs += e2cache_jobs(ctx, "C03", 4 if th else 3, 1500 if th else 300, 8 if th else 2, proxies=("0", "1", "2", "3"))
     jobs += e1_jobs(ctx, "C03", ["S3-evict-vs-read", "S5-corrupt-get-put", "S7-three-puts-tight", "S11-commit-refused-by-reservation", "S14-unreserved-overwrite-under-reservation", "S12-get-vs-two-overwrites", "S15-slowpath-get-vs-overwrite-vs-eviction"], 3 if th else 2, 2 if th else 1, 1200 if th else 300, oracle="C03@")
     return dict(level="model_checking", jobs=jobs,
                 rule="explicit-state BFS over operation sequences on the real SizedLRU and on a real disk cache (accounting equation, reserved==0, Stats()==index on every transition) plus all preemption-bounded schedules of three concurrent scenarios (equation at every scheduling point); distinct = distinct canonical states / distinct observed histories; environment deviation in the alphabet: uploads whose file cannot be created (os.OpenFile fails, injected through the os shim); E2-cache also from a preloaded backend (blobs that exist only in the backend)",
@@ -171,7 +171,7 @@ def check_C01(ctx):
     for cfg in CONFIGS:
         jobs.append(Job(ctx.bin(GRID), "TestC01BatchLists", name="C01:batchlists/" + cfg, timeout=2400, env={"VERIF_PARAM_CONFIG": cfg, "GOMAXPROCS": "4"}))
     return dict(level="exploration", jobs=jobs,
-                rule="full product storage mode x zstd implementation x 13 write paths x sizes on block/chunk edges x content kind x corruption kind (data, declared size, declared hash, framing, compressor, abort), each cell with fresh digests through the real HTTP/gRPC handlers; after a complete zstd frame 1-9 stray zero bytes or a further frame cut at 1-9 bytes; the wrong-declared-size cells repeated from the non-initial state in which the true blob (same hash, true size) is already present; multi-item BatchUpdateBlobs: every sequence up to length 3 (4 thorough) over {good, flipped, size+1, truncated, previous good again, previous good digest with flipped data}, identity and zstd transport: each item answered on its own merits; declared hash = hash of the empty blob with a non-zero size; non-trivial = distinct (path, corruption, size, content) cells that were accepted or rejected with the post-conditions checked",
+                rule="full product storage mode x zstd implementation x 14 write paths x sizes on block/chunk edges x content kind x corruption kind (data, declared size, declared hash, framing, compressor, abort), each cell with fresh digests through the real HTTP/gRPC handlers; after a complete zstd frame 1-9 stray zero bytes or a further frame cut at 1-9 bytes; the wrong-declared-size cells repeated from the non-initial state in which the true blob (same hash, true size) is already present; multi-item BatchUpdateBlobs: every sequence up to length 3 (4 thorough) over {good, flipped, size+1, truncated, previous good again, previous good digest with flipped data}, identity and zstd transport: each item answered on its own merits; declared hash = hash of the empty blob with a non-zero size; non-trivial = distinct (path, corruption, size, content) cells that were accepted or rejected with the post-conditions checked",
                 assumptions=["in-process servers (httptest recorder / bufconn), the same handlers main() wires up",
                              "blob contents are deterministic pseudo-random or mostly-zero bytes selected by VERIF_SEED; the enumerated grid does not depend on the seed",
                              "FetchBlob origins are loopback httptest servers"])
@@ -255,6 +255,7 @@ def check_C10(ctx):
     for mode in ("zstd", "uncompressed"):
         jobs.append(Job(g, "TestC10", name="C10:lists/" + mode, timeout=900, env={"VERIF_PARAM_MODE": mode}))
         jobs.append(Job(g, "TestC10Backend", name="C10:backend/" + mode, timeout=900, env={"VERIF_PARAM_MODE": mode}))
+        jobs.append(Job(g, "TestC10Limits", name="C10:limits/" + mode, timeout=900, env={"VERIF_PARAM_MODE": mode}))
     # existence checks through the REAL backend clients (httpproxy in front of a plain HTTP store, grpcproxy in
     # front of a second cache): one hash with the stored size and with size+-1
     for via in ("http", "grpc"):
@@ -263,7 +264,7 @@ def check_C10(ctx):
     jobs += e1_jobs(ctx, "C10", ["S9-findmissing-vs-puts"], 3 if th else 2, 4 if th else 2, 1200 if th else 300, oracle="C10")
     jobs += e2cache_jobs(ctx, "C10", 4 if th else 3, 1200 if th else 300, 2, proxies=("0", "1"))
     return dict(level="exploration", jobs=jobs,
-                rule="request lists of every length 0..45 with a single missing / single present / size-mismatched / empty digest at every index, all 2^8 (2^10 thorough) present/absent patterns in windows straddling the internal batch boundaries at 20 and 40, duplicates adjacent and 21 apart; with a backend every assignment of {local, backend only, absent, backend over max_proxy_blob_size, backend with another size}^4 (^5) at the list head and across the boundary; all <=2/3-preemption schedules of FindMissing over 25 digests against two concurrent uploads; FindMissing inside BFS operation sequences; lists naming one hash with two of {stored size, size+1, size-1} in every ordered pair at every position with gaps 1/2/19/20/21, also where the right size is backend-only; existence through the real backend clients (httpproxy before a plain HTTP store, grpcproxy before a second cache): sizes n, n+1, n-1; non-trivial = distinct request shapes answered exactly",
+                rule="blobs larger than the configured max_blob_size that are nevertheless held (directory written under a higher limit and restarted with limit 1000 / 1; fetched from a backend that then forgets them): present in every list position, absent digests of the same sizes missing; request lists of every length 0..45 with a single missing / single present / size-mismatched / empty digest at every index, all 2^8 (2^10 thorough) present/absent patterns in windows straddling the internal batch boundaries at 20 and 40, duplicates adjacent and 21 apart; with a backend every assignment of {local, backend only, absent, backend over max_proxy_blob_size, backend with another size}^4 (^5) at the list head and across the boundary; all <=2/3-preemption schedules of FindMissing over 25 digests against two concurrent uploads; FindMissing inside BFS operation sequences; lists naming one hash with two of {stored size, size+1, size-1} in every ordered pair at every position with gaps 1/2/19/20/21, also where the right size is backend-only; existence through the real backend clients (httpproxy before a plain HTTP store, grpcproxy before a second cache): sizes n, n+1, n-1; non-trivial = distinct request shapes answered exactly",
                 assumptions=["through the real gRPC handler over bufconn; backend = scriptable cache.Proxy answering synchronously",
                              "the fail-fast variant of the join (used by action-cache validation) is covered under C06"] + E1_ASSUME)
 
@@ -356,7 +357,7 @@ def check_C18(ctx):
             jobs.append(Job(g, "TestC18", name="C18:write/%s#%d" % (mode, sh), timeout=3600, env={"VERIF_PARAM_MODE": mode, "GOMAXPROCS": "4", "VERIF_SHARD": "%d/%d" % (sh, shards)}))
         jobs.append(Job(g, "TestC18Proxy", name="C18:proxy/" + mode, timeout=3600, env={"VERIF_PARAM_MODE": mode, "GOMAXPROCS": "4"}))
     return dict(level="exploration", jobs=jobs,
-                rule="backend part: objects of P-1, P, P+1, 2P bytes, incompressible and compressible (stored object smaller than the limit although the blob is larger); max_blob_size L in {1, 4 KiB, 1 MiB} (thorough: 11 limits incl. 2, 100, 4 KiB+-1, 64 KiB, 1 MiB+-1, 2 MiB+1) x item size {L-1, L, L+1, 4L} (thorough: 1, L/2, L-1, L, L+1, L+2, 2L, 4L+1) x 13 write paths x {incompressible, highly compressible} content (so that the transport size differs from the logical size) x storage mode; max_proxy_blob_size P in {100, 4096} x backend object {P-1, P, P+1} x {Get size known/unknown, GetZstd, Contains known/unknown, FindMissingBlobs, AC dependency check}; GetCapabilities; the action-cache entry itself as the item (serialised ActionResult of L-1, L, L+1, 4L bytes via gRPC and HTTP); a refused ac_* upload must not leave its ActionResult behind; oversize items that are ALREADY present (directory filled without a limit, restarted with max_blob_size) through every CAS write path; non-trivial = distinct cells on both sides of each limit",
+                rule="backend part: objects of P-1, P, P+1, 2P bytes, incompressible and compressible (stored object smaller than the limit although the blob is larger); max_blob_size L in {1, 4 KiB, 1 MiB} (thorough: 11 limits incl. 2, 100, 4 KiB+-1, 64 KiB, 1 MiB+-1, 2 MiB+1) x item size {L-1, L, L+1, 4L} (thorough: 1, L/2, L-1, L, L+1, L+2, 2L, 4L+1) x 14 write paths x {incompressible, highly compressible} content (so that the transport size differs from the logical size) x storage mode; max_proxy_blob_size P in {100, 4096} x backend object {P-1, P, P+1} x {Get size known/unknown, GetZstd, Contains known/unknown, FindMissingBlobs, AC dependency check}; GetCapabilities; the action-cache entry itself as the item (serialised ActionResult of L-1, L, L+1, 4L bytes via gRPC and HTTP); a refused ac_* upload must not leave its ActionResult behind; oversize items that are ALREADY present (directory filled without a limit, restarted with max_blob_size) through every CAS write path; non-trivial = distinct cells on both sides of each limit",
                 assumptions=["in-process servers; the disk cache and both front ends are configured with the same limit, as main() does"])
 
 
